@@ -725,6 +725,17 @@ cfg = json.loads(pathlib.Path(sys.argv[1]).read_text())
 barrier = pathlib.Path(sys.argv[2]); skew = float(sys.argv[3])
 while not barrier.exists():
     time.sleep(0.002)
+if len(sys.argv) > 4 and sys.argv[4] == 'same-clock-reading':
+    # both runs of the pair read the same second from the clock, however
+    # the scheduler treats them (names derived from a time stamp collide):
+    # the reading is the modification time of the shared barrier file
+    import cell_type_mapper.cli.from_specified_markers as _m
+    import cell_type_mapper.utils.utils as _u
+    _fixed = time.strftime('%Y-%m-%d-%H-%M-%S',
+                           time.localtime(barrier.stat().st_mtime))
+    for _mod in (_m, _u):
+        if hasattr(_mod, 'get_timestamp'):
+            _mod.get_timestamp = lambda: _fixed
 if skew >= 0:
     # start right after the next whole second (both runs of a pair do)
     now = time.time()
@@ -772,7 +783,9 @@ with pw.quiet():
         cp.write_text(json.dumps(cfg))
         skew = float(rng.uniform(0, 0.05))
         procs.append(subprocess.Popen(
-            [sys.executable, str(sp), str(cp), str(barrier), str(skew)],
+            [sys.executable, str(sp), str(cp), str(barrier), str(skew)]
+            + (['same-clock-reading']
+               if spec.get('pair_class') == 'long-and-short' else []),
             env=dict(os.environ), stdout=subprocess.DEVNULL,
             stderr=subprocess.PIPE))
     import time
